@@ -74,7 +74,7 @@ def orient (iso : Rat) (s : Stream) (ts tt : Rat) : Stream :=
   if tt < ts then setHot s ts tt
   else if ts < tt then setCold s ts tt
   else if 0 ≤ s.q then setCold { s with tt := some (ts + iso) } ts (ts + iso)
-  else setHot { s with tt := some (ts - iso) } ts (ts - iso)
+  else setHot { s with tt := some (ts - iso), q := -s.q } ts (ts - iso)
 
 /-- `_update_attributes`. Returns the (possibly partially updated) state and the exception, if any. -/
 def update (iso : Rat) (s : Stream) : Stream × Option Err :=
